@@ -80,7 +80,7 @@ pub fn produce(base: &Base) -> Option<BaseFile> {
             let wb = world.borrow();
             let shp = wb.data(SHP).to_vec();
             let shx = wb.data(SHX).to_vec();
-            let dec = decode(&shp).ok()?;
+            let dec = decode_layout(&shp).ok()?;
             let idx = decode_shx(&shx).ok()?;
             let n = dec.recs.len();
             Some(BaseFile { dbf: make_dbf(n), ty: dec.ty, n, shp_fields: dec.fields, shx_fields: idx.fields, shp, shx })
@@ -178,6 +178,7 @@ struct Judge<'a> {
 impl Judge<'_> {
     /// Run one reader entry point under the panic guard and the allocator monitor.
     fn call<R>(&mut self, name: &str, f: impl FnOnce() -> R) -> Option<R> {
+        self.ctx.stats.steps += 1; // logical step = one reader call (sources are plain cursors here)
         alloc::begin();
         let r = guarded(f);
         let (peak, largest) = alloc::end();
